@@ -676,7 +676,7 @@ def norm_tokens(src, lo, hi):
     return "".join(x.text for x in src.toks[lo:hi] if x.kind not in ("ws", "comment"))
 
 
-def rule_xexpr(item, pc, literal, call_text):
+def rule_xexpr(item, pc, literal, call_text, all_occurrences=False):
     """R-XEXPR: one sub-expression, identified by its exact token text (whitespace and comments ignored), is replaced by
     `call_text`, a call of an `external_body` function that the unit declares with `//@xexprfn`: the body of that
     function is the removed text, verbatim; its signature is written in the template and checked by rustc against the
@@ -698,18 +698,19 @@ def rule_xexpr(item, pc, literal, call_text):
             if acc == want:
                 hits.append((a, b))
                 break
-    if len(hits) != 1:
+    if (len(hits) != 1 and not all_occurrences) or not hits:
         raise ExtractError(f"R-XEXPR: `{item.name}`: expression text must occur exactly once, found {len(hits)}: {literal[:80]!r}")
-    a, b = hits[0]
-    # brackets inside the window must be balanced within it
-    for k in range(a, b + 1):
-        if t[k].text in OPEN or t[k].text in CLOSE:
-            m = src.match(k)
-            if not (a <= m <= b):
-                raise ExtractError("R-XEXPR: expression window is not bracket-balanced")
-    removed = src.text[t[a].s:t[b].e]
-    pc.delete(t[a].s, t[b].e, "R-XEXPR", "expression moved verbatim into an external_body function (contract assumed)")
-    pc.insert(t[a].s, call_text, "R-XEXPR")
+    removed = None
+    for (a, b) in hits:
+        # brackets inside the window must be balanced within it
+        for k in range(a, b + 1):
+            if t[k].text in OPEN or t[k].text in CLOSE:
+                m = src.match(k)
+                if not (a <= m <= b):
+                    raise ExtractError("R-XEXPR: expression window is not bracket-balanced")
+        removed = src.text[t[a].s:t[b].e]
+        pc.delete(t[a].s, t[b].e, "R-XEXPR", "expression moved verbatim into an external_body function (contract assumed)" + (" -- one of %d identical occurrences" % len(hits) if len(hits) > 1 else ""))
+        pc.insert(t[a].s, call_text, "R-XEXPR")
     return removed
 
 
